@@ -523,13 +523,27 @@ package modfile
 //@   props C08 C15
 
 //@ # ---------- require directives ----------
+//@ # the comment token tok marks its line as indirect: its text after "//" is the single word "indirect", or starts
+//@ # with the word "indirect;" followed by more
+//@ spec func INDTOK(tok string) bool =
+//@     (NF(strings.TrimPrefix(tok, "//")) == 1 && FF(strings.TrimPrefix(tok, "//")) == "indirect")
+//@     || (NF(strings.TrimPrefix(tok, "//")) > 1 && FF(strings.TrimPrefix(tok, "//")) == "indirect;")
+//@ spec macro ISIND(line *Line) bool = len(line.Suffix) > 0 && INDTOK(line.Suffix[0].Token)
+//@ func isIndirect
+//@   requires line != nil
+//@   allocates
+//@   ensures [C16] marker_rule: result == ISIND(line)
+//@   uses fields_count
+//@   props C08 C15 C16
+//@ # after setIndirect the line's marker agrees with the flag; only the suffix comment of r's line is touched
 //@ func (*Require).setIndirect
-//@   trusted "comment surgery on the line's suffix comment (strings.Fields/TrimSpace/Index); summary: sets the flag, touches only the suffix comment of r's line"
 //@   requires r != nil && r.Syntax != nil
 //@   modifies Require.Indirect, Comments.Suffix, []Comment, Comment.Token
 //@   allocates
 //@   ensures r.Indirect == indirect
+//@   ensures [C16] marker_matches_flag: ISIND(r.Syntax) == indirect
 //@   ensures forall q *Require {q.Indirect} :: q != r ==> q.Indirect == old(q.Indirect)
+//@   uses fields_count fields_marker_only fields_marker_first
 //@   props C08 C15 C16
 
 //@ spec macro RQ_NONNIL(f *File) bool = (forall i int :: 0 <= i && i < len(f.Require) ==> f.Require[i] != nil && (f.Require[i].Mod.Path != "" ==> f.Require[i].Syntax != nil))
